@@ -11,10 +11,13 @@
      ErrIdx:   a reported error names a token inside the input (offset in range, C17)             *)
 EXTENDS Parser
 
-CONSTANTS MaxLen, UseD1
-Alpha == {T("star"), T("dot"), T("filter"), T("flatten"), T("lparen"), T("rparen"), T("lbracket"), T("rbracket"),
+CONSTANTS MaxLen, UseD1, Deep
+(* Deep: longer strings over the few tokens that nest (what only shows behind a parenthesised operand) *)
+AlphaDeep == {T("lparen"), T("rparen"), <<"uid", <<97>>>>, <<"qid", <<98>>>>, T("comma"), T("current")}
+AlphaAll == {T("star"), T("dot"), T("filter"), T("flatten"), T("lparen"), T("rparen"), T("lbracket"), T("rbracket"),
           T("lbrace"), T("rbrace"), T("or"), T("pipe"), <<"number", 0>>, <<"uid", <<97>>>>, <<"qid", <<98>>>>, T("comma"),
           T("colon"), T("lt"), <<"jsonlit", IntV(1)>>, T("current"), T("expref"), T("and"), T("not"), T("unknown")}
+Alpha == IF Deep THEN AlphaDeep ELSE AlphaAll
 VARIABLE s
 Init == s = <<>>
 Next == Len(s) < MaxLen /\ \E a \in Alpha : s' = Append(s, a)
